@@ -119,6 +119,72 @@ def interrupt_core():
     return cases
 
 
+def invariant_core():
+    """A behaviour with an invariant that runs a sub-behaviour directly, under do-for / do-until and inside a
+    try/interrupt block, with tables that break the invariant while the sub-behaviour runs and restore it (or
+    not) before it returns, and with a handler that pre-empts while it is broken."""
+    cases = []
+    sub = {"pre": [], "inv": [], "body": [["take", 5], ["take", 6], ["take", 6], ["log", "s"]]}
+    mains = [
+        [["do", 2], ["log", "after"], ["take", 4]],
+        [["dofor", 2, 2, "steps"], ["log", "after"], ["take", 4]],
+        [["dofor", 2, 5, "steps"], ["log", "after"], ["take", 4]],
+        [["dountil", 2, "u"], ["log", "after"], ["take", 4]],
+        [["try", [["do", 2], ["take", 7]], [["a", [["take", 8]]]]], ["log", "after"], ["take", 4]],
+        [["take", 1], ["try", [["take", 7], ["do", 2]], [["a", [["take", 8], ["abort"]]]]], ["log", "after"], ["take", 4]],
+    ]
+    inv_rows = [[True], [True, False, False, True], [True, False, True], [True, False], [True, True, True, False, True], [False]]
+    for main in mains:
+        for inv in inv_rows:
+            for u in ([False, False, True], [False]):
+                for a in ([False], [False, False, True, False], [False, True, False]):
+                    if main[0][0] != "dountil" and u != [False]:
+                        continue
+                    if not any(st[0] == "try" for st in main) and a != [False]:
+                        continue
+                    cases.append({
+                        "defs": [{"pre": [], "inv": ["i"], "body": main}, sub],
+                        "agents": [1], "monitors": [], "records": [],
+                        "termWhen": [], "termSimWhen": [], "termAfter": [],
+                        "maxSteps": 7, "dt": [1, 1],
+                        "table": {"T": [True], "F": [False], "i": inv, "u": u, "a": a},
+                        "sched": [[1]],
+                    })
+    return cases
+
+
+def _runs_sub_under_wrapper(case):
+    """Trigger of the named deviation invimpl: a behaviour with invariants runs a sub-behaviour under
+    do-for / do-until or inside a try/interrupt statement."""
+    def has_do(stmts):
+        for st in stmts:
+            if st[0] in ("do", "dofor", "dountil", "choose", "shuffle"):
+                return True
+            if st[0] == "if" and (has_do(st[2]) or has_do(st[3])):
+                return True
+            if st[0] == "while" and has_do(st[2]):
+                return True
+            if st[0] == "try" and (has_do(st[1]) or any(has_do(h) for _c, h in st[2])):
+                return True
+        return False
+
+    def wrapped(stmts):
+        for st in stmts:
+            if st[0] in ("dofor", "dountil"):
+                return True
+            if st[0] == "try" and (has_do(st[1]) or any(has_do(h) for _c, h in st[2])):
+                return True
+            if st[0] == "if" and (wrapped(st[2]) or wrapped(st[3])):
+                return True
+            if st[0] == "while" and wrapped(st[2]):
+                return True
+            if st[0] == "try" and (wrapped(st[1]) or any(wrapped(h) for _c, h in st[2])):
+                return True
+        return False
+
+    return any(d["inv"] and wrapped(d["body"]) for d in case["defs"])
+
+
 def main(tier):
     ck = Check("C13", tier, "model_checking")
     ck.cov["rule"] = (
@@ -132,9 +198,10 @@ def main(tier):
     )
     ck.assumptions += [
         "only productive programs (every handler / loop body begins with a step-taking statement or abort)",
-        "invariants of a behaviour that runs a sub-behaviour under do-for/do-until/try are kept true by the generator "
-        "(the implementation re-checks them at every step there; the reference says they are not checked while a "
-        "sub-behaviour runs) -- this situation is therefore not decided",
+        "invariants of a behaviour that runs a sub-behaviour under do-for/do-until/try are kept true by the RANDOM "
+        "generator; the targeted invariant core breaks and restores them there (the reference says they are not "
+        "checked while a sub-behaviour runs; the implementation re-checks them at every step: named deviation "
+        "invimpl, known finding invariant-checked-inside-sub-behaviour)",
         "conditions and guards are pure table look-ups",
     ]
     core = interrupt_core()
@@ -142,16 +209,17 @@ def main(tier):
         core = core[seed() % 2 :: 2]
     n = 100 if tier == "quick" else 1500
     rand = gen_dynamic.generate(seed() * 7907 + 13, n, "interrupt")
-    cases = core + nested_flow_core() + rand
+    cases = core + nested_flow_core() + invariant_core() + rand
     global_rows = c12.run_batch(ck, cases, need_actions=["Setup", "BehaviorResume", "ExecuteActions", "Finish"])
     # as-implemented twins (spec deviation UnwindReturnImpl) for the cases that satisfy its trigger
     trig = [flow_triggers(c) for c in cases]
     twin_ids = [i for i, tr in enumerate(trig) if "return" in tr]
     impl_exp = {}
-    if twin_ids:
-        import os
-        from common import run_tlc, scratch
+    inv_exp = {}
+    import os
+    from common import run_tlc, scratch
 
+    if twin_ids:
         twins = [dict(cases[i], impl=1) for i in twin_ids]
         path = os.path.join(scratch(), "twins.json")
         with open(path, "w") as f:
@@ -160,6 +228,18 @@ def main(tier):
         ck.add_tlc("Dynamics(as-implemented return)", res)
         for o in res.outputs:
             impl_exp[twin_ids[o["cid"] - 1]] = o
+    # as-implemented twins (spec deviation invimpl) for the cases that satisfy ITS trigger
+    inv_ids = [i for i, c in enumerate(cases) if _runs_sub_under_wrapper(c)]
+    if inv_ids:
+        twins = [dict(cases[i], invimpl=1) for i in inv_ids]
+        path = os.path.join(scratch(), "invtwins.json")
+        with open(path, "w") as f:
+            json.dump(twins, f)
+        res = run_tlc("Dynamics", dyn.CFG, env={"CASES": path}, timeout=3000)
+        ck.add_tlc("Dynamics(as-implemented invariant checks)", res)
+        for o in res.outputs:
+            inv_exp[inv_ids[o["cid"] - 1]] = o
+    ck.cov["invariant_deviation_cases"] = len(inv_ids)
     # second pass with raiseGuardViolations on the real code only (the spec's expectation is derived)
     texts = [r[1] for r in global_rows]
     real2 = pmap(_run_both, list(zip(cases, texts)))
@@ -189,6 +269,8 @@ def main(tier):
                 known = None
                 if idx in impl_exp and dyn.compare(dyn.expected_of(impl_exp[idx], raise_guards), real) is None:
                     known = "nested-try-return-leaks"   # matches the named deviation under its trigger
+                elif idx in inv_exp and dyn.compare(dyn.expected_of(inv_exp[idx], raise_guards), real) is None:
+                    known = "invariant-checked-inside-sub-behaviour"
                 ck.violation(f"raiseGuardViolations={raise_guards}: {diff}",
                              {"property": "C13", "program": text, "case": case, "raiseGuardViolations": raise_guards,
                               "expected": exp, "observed": real, "first_difference": diff}, known_key=known)
